@@ -270,7 +270,7 @@ def _register(ck, cases):
                         ck.violation(_site("as4.roots", label, nf) + "/domain", f"real-Cardano formula not applicable for a physical beta tower ({why})", dict(label=label, betas=bs4))
             for fn, status, detail in res:
                 nontrivial = (not boundary) and all(b != 0 for b in bs4[:order])
-                ck.case((fn, label, order, a0, a1), nontrivial=nontrivial and status != "inc", sample=dict(fn=fn, label=label, a0=a0, a1=a1, order=order, status=status, detail=detail) if ck.evaluations % 997 == 0 else None)
+                ck.case((fn, label, order, a0, a1), nontrivial=nontrivial and status != "inc", sample=dict(fn=fn, label=label, a0=a0, a1=a1, order=order, status=status, detail=detail) if (ck.evaluations % 997 == 0 or not ck.samples) else None)
                 if status == "inc":
                     ck.inconclusive(f"{fn}: {detail}")
                     continue
